@@ -164,6 +164,50 @@ Theorem C09_placement_histories : forall s ops, wf s -> sclean s = true -> foral
 Proof. exact placement_history. Qed.
 Print Assumptions C09_placement_histories.
 
+(* ---------------------------------------------------------------- 5. either block means the same *)
+(* [denote f]: the meaning of a file by MCNP's rule, written without reference to MontePy — for cell i and class k
+   the value on the cell card, else the i-th entry of the data-block vector if it is not a jump, else the default
+   (importance 0, no volume, universe 0, no lattice, no fill).  Whenever MontePy reads a file, the per-cell values
+   its API reports are that meaning (push_to_cells, _clear_data, the blank cell-level instances, the redundancy
+   checks: all inside [read]).  [fill_one_block]: FILL is not given in both blocks (the four other classes are
+   refused by read itself in that case; FILL is not: the data block silently wins, even with a jump). *)
+Theorem C09_read_means_file : forall f s, read f = Ok s -> fill_one_block f = true -> per_cell s = denote f.
+Proof. exact read_denote. Qed.
+Print Assumptions C09_read_means_file.
+
+(* hence two files that differ only in where they state the per-cell data are read to the same per-cell values *)
+Theorem C09_either_block : forall f f' s s',
+  read f = Ok s -> read f' = Ok s' -> fill_one_block f = true -> fill_one_block f' = true ->
+  denote f = denote f' -> per_cell s = per_cell s'.
+Proof. exact either_block. Qed.
+Print Assumptions C09_either_block.
+
+(* non-vacuity: the same problem with everything on the cell cards / everything in the data block (with a combined
+   imp:n,p card, trailing jumps omitted) / mixed; all three are read, and mean the same *)
+Definition f_allcell : file :=
+  mkFile [n; p]
+         [mkFC 1 [([n; p], 1)] (Some 3) None None (Some 7) false;
+          mkFC 2 [([n], 1); ([p], 2)] None (Some 7) (Some 1) (Some 8) false;
+          mkFC 5 [([p], 0); ([n], 0)] (Some 4) (Some 8) None None false]
+         [FOther].
+Definition f_alldata : file :=
+  mkFile [n; p]
+         [mkFC 1 [] None None None None false; mkFC 2 [] None None None None false; mkFC 5 [] None None None None false]
+         [FImp [n] [1; 1; 0]; FOther; FVec CVol [Some 3; None; Some 4]; FVec CU [None; Some 7; Some 8];
+          FVec CLat [None; Some 1]; FImp [p] [1; 2; 0]; FVec CFill [Some 7; Some 8]].
+Definition f_mixed : file :=
+  mkFile [n; p]
+         [mkFC 1 [] (Some 3) None None None false; mkFC 2 [] None None (Some 1) None false; mkFC 5 [] (Some 4) None None None false]
+         [FVec CFill [Some 7; Some 8; None]; FImp [n] [1; 1; 0]; FImp [p] [1; 2; 0]; FVec CU [None; Some 7; Some 8]].
+Example C09_either_block_nonvacuous :
+  (exists s, read f_allcell = Ok s) /\ (exists s, read f_alldata = Ok s) /\ (exists s, read f_mixed = Ok s) /\
+  fill_one_block f_allcell = true /\ fill_one_block f_alldata = true /\ fill_one_block f_mixed = true /\
+  denote f_allcell = denote f_alldata /\ denote f_alldata = denote f_mixed /\
+  denote f_allcell = [mkA 1 [(n, 1); (p, 1)] (Some 3) (Some 0) None (Some 7);
+                      mkA 2 [(n, 1); (p, 2)] None (Some 7) (Some 1) (Some 8);
+                      mkA 5 [(n, 0); (p, 0)] (Some 4) (Some 8) None None].
+Proof. repeat split; try (eexists; vm_compute; reflexivity); vm_compute; reflexivity. Qed.
+
 (* ---------------------------------------------------------------- non-vacuity *)
 (* a problem with all five classes, three cells, MODE n p, some data in each block *)
 Definition f_ex : file :=
